@@ -137,7 +137,10 @@ impl GOp {
 }
 
 pub struct EReg {
-    pub var: ElementVar,
+    /// shared, not cloned, by the instructions that read the register: an `ElementVar` caches its
+    /// lazily computed encoding / element behind interior mutability, and real circuits call several
+    /// gadgets on the *same* variable
+    pub var: std::rc::Rc<ElementVar>,
     pub native: AE,
     pub is_const: bool,
     /// allocated from a field value that is *not* a valid encoding (native decoding fails):
@@ -158,6 +161,9 @@ pub enum InKind {
     Elem(ElementVar, AE),
     Fq(FqVar, Fq),
     Bool(Boolean<Fq>, bool),
+    /// not an input but a free choice all the same: the square root returned by isqrt is determined
+    /// up to sign only, and everything computed from it afterwards legitimately depends on the choice
+    SignFree(FqVar, Fq),
 }
 
 /// One materialised observable: fresh witness variables constrained equal to a variable's value, so
@@ -370,7 +376,7 @@ impl Machine {
                 if *mode != Mode::Constant {
                     self.inputs.push(InKind::Elem(var.clone(), native));
                 }
-                self.ev[*dst as usize % NE] = Some(EReg { var, native, is_const: *mode == Mode::Constant, poisoned: false });
+                self.ev[*dst as usize % NE] = Some(EReg { var: std::rc::Rc::new(var), native, is_const: *mode == Mode::Constant, poisoned: false });
             }
             GOp::Realloc { dst, a, mode, via } => {
                 // a constant copied from a (witness-dependent) register value would make the circuit's
@@ -394,7 +400,7 @@ impl Machine {
                 if *mode != Mode::Constant {
                     self.inputs.push(InKind::Elem(var.clone(), native));
                 }
-                self.ev[*dst as usize % NE] = Some(EReg { var, native, is_const: *mode == Mode::Constant, poisoned: false });
+                self.ev[*dst as usize % NE] = Some(EReg { var: std::rc::Rc::new(var), native, is_const: *mode == Mode::Constant, poisoned: false });
             }
             GOp::AllocLazy { dst, val, mode } => {
                 if *mode == Mode::Constant {
@@ -405,8 +411,8 @@ impl Machine {
                 let var = <ElementVar as AllocVar<Fq, Fq>>::new_variable(cs.clone(), || Ok(fv), mode.ark()).map_err(|e| synth(e, &name))?;
                 self.has_lazy = true;
                 match nat {
-                    Ok(n) => self.ev[*dst as usize % NE] = Some(EReg { var, native: n, is_const: false, poisoned: false }),
-                    Err(_) => self.ev[*dst as usize % NE] = Some(EReg { var, native: AE::IDENTITY, is_const: false, poisoned: true }),
+                    Ok(n) => self.ev[*dst as usize % NE] = Some(EReg { var: std::rc::Rc::new(var), native: n, is_const: false, poisoned: false }),
+                    Err(_) => self.ev[*dst as usize % NE] = Some(EReg { var: std::rc::Rc::new(var), native: AE::IDENTITY, is_const: false, poisoned: true }),
                 }
             }
             GOp::IsZero { a } => {
@@ -452,12 +458,12 @@ impl Machine {
                 match nat {
                     Ok(n) => {
                         self.check_elem(&name, &out, &n, ctx)?;
-                        self.ev[*dst as usize % NE] = Some(EReg { var: out, native: n, is_const: false, poisoned: false });
+                        self.ev[*dst as usize % NE] = Some(EReg { var: std::rc::Rc::new(out), native: n, is_const: false, poisoned: false });
                     }
                     Err(_) => {
                         // shape runs keep the register (with a placeholder native value) so that operand
                         // selection does not depend on the values
-                        self.ev[*dst as usize % NE] = if self.run == Run::Shape { Some(EReg { var: out, native: AE::IDENTITY, is_const: false, poisoned: false }) } else { None };
+                        self.ev[*dst as usize % NE] = if self.run == Run::Shape { Some(EReg { var: std::rc::Rc::new(out), native: AE::IDENTITY, is_const: false, poisoned: false }) } else { None };
                         native_fails = Some(format!("native decoding rejects {}", hex::encode(native.to_bytes())));
                     }
                 }
@@ -474,44 +480,48 @@ impl Machine {
                 };
                 let nat = AE::encode_to_curve(&native);
                 self.check_elem(&name, &out, &nat, ctx)?;
-                self.ev[*dst as usize % NE] = Some(EReg { var: out, native: nat, is_const: false, poisoned: false });
+                self.ev[*dst as usize % NE] = Some(EReg { var: std::rc::Rc::new(out), native: nat, is_const: false, poisoned: false });
             }
             GOp::Bin { dst, form, a, b } => {
                 let (va, na, ca) = ereg!(*a);
                 let (vb, nb, cb) = ereg!(*b);
+                // by-value operands are clones of the registers' variables (as a circuit would have to
+                // write them); by-reference operands are the registers' own variables
+                let va: ElementVar = (*va).clone();
                 let (out, nat) = match form {
-                    BinForm::AddVV => (va + vb, na + nb),
-                    BinForm::AddVRef => (va + &vb, na + nb),
+                    BinForm::AddVV => (va + (*vb).clone(), na + nb),
+                    BinForm::AddVRef => (va + &*vb, na + nb),
                     BinForm::AddAssignV => {
                         let mut x = va;
-                        x += vb;
+                        x += (*vb).clone();
                         (x, na + nb)
                     }
                     BinForm::AddAssignRef => {
                         let mut x = va;
-                        x += &vb;
+                        x += &*vb;
                         (x, na + nb)
                     }
-                    BinForm::SubVV => (va - vb, na - nb),
-                    BinForm::SubVRef => (va - &vb, na - nb),
+                    BinForm::SubVV => (va - (*vb).clone(), na - nb),
+                    BinForm::SubVRef => (va - &*vb, na - nb),
                     BinForm::SubAssignV => {
                         let mut x = va;
-                        x -= vb;
+                        x -= (*vb).clone();
                         (x, na - nb)
                     }
                     BinForm::SubAssignRef => {
                         let mut x = va;
-                        x -= &vb;
+                        x -= &*vb;
                         (x, na - nb)
                     }
                 };
                 self.check_elem(&name, &out, &nat, ctx)?;
                 let is_const = out.cs().is_none();
                 let _ = (ca, cb);
-                self.ev[*dst as usize % NE] = Some(EReg { var: out, native: nat, is_const, poisoned: false });
+                self.ev[*dst as usize % NE] = Some(EReg { var: std::rc::Rc::new(out), native: nat, is_const, poisoned: false });
             }
             GOp::BinConst { dst, form, a, c } => {
                 let (va, na, ca) = ereg!(*a);
+                let va: ElementVar = (*va).clone();
                 let nc = native_of(c);
                 let (out, nat) = match form {
                     ConstForm::AddConst => (va + nc, na + nc),
@@ -530,7 +540,7 @@ impl Machine {
                 self.check_elem(&name, &out, &nat, ctx)?;
                 let is_const = out.cs().is_none();
                 let _ = ca;
-                self.ev[*dst as usize % NE] = Some(EReg { var: out, native: nat, is_const, poisoned: false });
+                self.ev[*dst as usize % NE] = Some(EReg { var: std::rc::Rc::new(out), native: nat, is_const, poisoned: false });
             }
             GOp::Negate { dst, a } => {
                 let (va, na, ca) = ereg!(*a);
@@ -539,7 +549,7 @@ impl Machine {
                 self.check_elem(&name, &out, &nat, ctx)?;
                 let is_const = out.cs().is_none();
                 let _ = ca;
-                self.ev[*dst as usize % NE] = Some(EReg { var: out, native: nat, is_const, poisoned: false });
+                self.ev[*dst as usize % NE] = Some(EReg { var: std::rc::Rc::new(out), native: nat, is_const, poisoned: false });
             }
             GOp::Double { dst, a } => {
                 let (va, na, ca) = ereg!(*a);
@@ -548,16 +558,17 @@ impl Machine {
                 self.check_elem(&name, &out, &nat, ctx)?;
                 let is_const = out.cs().is_none();
                 let _ = ca;
-                self.ev[*dst as usize % NE] = Some(EReg { var: out, native: nat, is_const, poisoned: false });
+                self.ev[*dst as usize % NE] = Some(EReg { var: std::rc::Rc::new(out), native: nat, is_const, poisoned: false });
             }
             GOp::DoubleInPlace { dst, a } => {
-                let (mut va, na, ca) = ereg!(*a);
+                let (va, na, ca) = ereg!(*a);
+                let mut va: ElementVar = (*va).clone();
                 va.double_in_place().map_err(|e| synth(e, &name))?;
                 let nat = na.double();
                 self.check_elem(&name, &va, &nat, ctx)?;
                 let is_const = va.cs().is_none();
                 let _ = ca;
-                self.ev[*dst as usize % NE] = Some(EReg { var: va, native: nat, is_const, poisoned: false });
+                self.ev[*dst as usize % NE] = Some(EReg { var: std::rc::Rc::new(va), native: nat, is_const, poisoned: false });
             }
             GOp::ScalarMul { dst, a, k, nbits, bits_const } => {
                 let (va, na, ca) = ereg!(*a);
@@ -579,7 +590,7 @@ impl Machine {
                 self.check_elem(&name, &out, &nat, ctx)?;
                 let is_const = out.cs().is_none();
                 let _ = ca;
-                self.ev[*dst as usize % NE] = Some(EReg { var: out, native: nat, is_const, poisoned: false });
+                self.ev[*dst as usize % NE] = Some(EReg { var: std::rc::Rc::new(out), native: nat, is_const, poisoned: false });
             }
             GOp::IsEq { a, b } | GOp::IsNeq { a, b } => {
                 let (va, na, _) = ereg!(*a);
@@ -624,7 +635,7 @@ impl Machine {
                 self.check_elem(&name, &out, &nat, ctx)?;
                 let is_const = out.cs().is_none();
                 let _ = (ca, cb);
-                self.ev[*dst as usize % NE] = Some(EReg { var: out, native: nat, is_const, poisoned: false });
+                self.ev[*dst as usize % NE] = Some(EReg { var: std::rc::Rc::new(out), native: nat, is_const, poisoned: false });
             }
             GOp::Isqrt { dst, f } => {
                 let (var, native, is_const) = freg!(*f);
@@ -648,7 +659,9 @@ impl Machine {
                 }
                 // the register keeps the gadget's own sign choice
                 let kept = y.value().unwrap_or(ny);
-                self.fv[*dst as usize % NF] = Some(FReg { var: y, native: if kept == -ny { -ny } else { ny }, is_const: false, sign_free: true });
+                let kept_native = if kept == -ny { -ny } else { ny };
+                self.inputs.push(InKind::SignFree(y.clone(), kept_native));
+                self.fv[*dst as usize % NF] = Some(FReg { var: y, native: kept_native, is_const: false, sign_free: true });
             }
             GOp::IsNegative { f } | GOp::IsNonnegative { f } => {
                 let (var, native, _) = freg!(*f);
@@ -771,6 +784,7 @@ impl Machine {
                 InKind::Elem(v, n) => mat_elem(format!("input element #{i}"), v, n)?,
                 InKind::Fq(v, n) => mat_fq(v)?.map(|w| MatItem::Fq { what: format!("input field value #{i}"), w, native: *n, sign_free: false }),
                 InKind::Bool(b, n) => mat_bool(format!("input boolean #{i}"), b, *n)?,
+                InKind::SignFree(v, n) => mat_fq(v)?.map(|w| MatItem::Fq { what: format!("isqrt output #{i}"), w, native: *n, sign_free: true }),
             };
             inputs.extend(item);
         }
